@@ -370,6 +370,17 @@ def m_opt_or(ex, args, callee):
     return args[0] if args[0].discr == 1 else args[1]
 
 
+def m_transpose(ex, args, callee):
+    o = args[0]
+    if o.ty == 'Option':                      # Option<Result<T,E>> -> Result<Option<T>,E>
+        if o.discr == 0: return ex.ok(ex.none())
+        r = ex.payload(o)
+        return ex.ok(ex.some(ex.payload(r))) if r.discr == 0 else ex.err(ex.payload(r))
+    if o.discr == 1: return ex.some(ex.err(ex.payload(o)))      # Result<Option<T>,E> -> Option<Result<T,E>>
+    inner = ex.payload(o)
+    return ex.some(ex.ok(ex.payload(inner))) if inner.discr == 1 else ex.none()
+
+
 def m_opt_and_then(ex, args, callee):
     o = args[0]
     return ex.call_closure(args[1], [ex.payload(o)]) if o.discr == 1 else ex.none()
@@ -414,6 +425,7 @@ def m_res_ok(ex, args, callee):
 
 def m_try_branch(ex, args, callee):
     r = args[0]
+    if not isinstance(r, Adt): raise Unsupported(f'Try::branch of {r!r} ({callee})')
     if r.ty == 'Result':
         if r.discr == 0: return ex.mk_enum('ControlFlow', 'Continue', [ex.payload(r)])
         return ex.mk_enum('ControlFlow', 'Break', [ex.err(ex.payload(r))])
@@ -584,6 +596,7 @@ BASE_MODELS = [
     (r'Option::<.*>::is_some$', lambda ex, a, c: dv(a[0]).discr == 1), (r'Option::<.*>::ok_or_else::', m_ok_or_else),
     (r'Option::<.*>::ok_or::', m_ok_or),
     (r'Option::<.*>::map::', m_opt_map), (r'(Option|Result)::<.*>::map_or::', m_map_or), (r'(Option|Result)::<.*>::map_or_else::', m_map_or_else),
+    (r'(Option|Result)::<.*>::transpose$', m_transpose),
     (r'Option::<.*>::filter::', m_opt_filter), (r'Option::<.*>::or$', m_opt_or), (r'Option::<.*>::and_then::', m_opt_and_then), (r'Option::<.*>::or_else::', m_opt_or_else),
     (r'(Option|Result)::<.*>::unwrap_or$', m_unwrap_or), (r'(Option|Result)::<.*>::unwrap_or_else::', m_unwrap_or_else),
     (r'(Option|Result)::<.*>::(unwrap|expect)$', m_expect),
@@ -603,6 +616,8 @@ BASE_MODELS = [
     (r'Arguments::<.*>::(new|from_str|new_const|new_v1)|Argument::<.*>::new_|^core::fmt::rt::', lambda ex, a, c: Opaque('fmt')),
     (r'^std::fmt::format$|^alloc::fmt::format$', lambda ex, a, c: SymStr(z3.FreshConst(StrSort, 'fmt'))),
     (r'^must_use::', ident),
+    (r'^<[ui](8|16|32|64|128|size) as (From|TryFrom)<[ui](8|16|32|64|128|size)>>::(from|try_from)$', m_int_from),
+    (r'NonZero::<.*>::get$', ident), (r'NonZero::<.*>::new_unchecked$', ident),
     (r'panic_fmt|^panic$|panicking::panic|^core::panicking|^std::rt::begin_panic|unwrap_failed|expect_failed', m_panic),
     (r' as Into<.*>>::into$', None),      # placeholder replaced below (identity only for T: Into<T>)
     (r'^Arc::<.*>::clone$|Arc<.*> as Clone>::clone$', ident_ref), (r'Arc<.*> as Deref>::deref$|Box<.*> as Deref>::deref$|Box<.*> as DerefMut>::deref_mut$', m_smart_deref),
@@ -614,6 +629,21 @@ BASE_MODELS = [
     (r'Pin::<.*>::get_unchecked_mut$|Pin::<.*>::get_mut$|Pin::<.*>::as_mut$|Pin::<.*>::into_inner$', lambda ex, a, c: a[0].fields[None][0].v if isinstance(a[0], Adt) else dv(a[0]).fields[None][0].v),
     (r' as std::future::IntoFuture>::into_future$|as IntoFuture>::into_future$', lambda ex, a, c: a[0]),
 ]
+
+
+def m_int_from(ex, args, callee):
+    m = re.match(r'^<(\w+) as (?:From|TryFrom)<(\w+)>>::(from|try_from)$', callee)
+    dst, src, how = m.group(1), m.group(2), m.group(3)
+    v = args[0]
+    if how == 'from': return ex.int_cast(v, src, dst)
+    from .core import INT_BITS
+    db, sb = INT_BITS[dst], INT_BITS[src]
+    wide = ex.int_cast(v, src, 'i128')
+    lo, hi = (-(1 << (db - 1)), (1 << (db - 1)) - 1) if dst.startswith('i') else (0, (1 << db) - 1)
+    if isinstance(wide, int): fits = lo <= wide <= hi
+    else: fits = z3.And(wide >= lo, wide <= hi)
+    if ex.truth(fits): return ex.ok(ex.int_cast(v, src, dst))
+    return ex.err(Opaque('TryFromIntError'))
 
 
 def m_into(ex, args, callee):
